@@ -386,6 +386,31 @@ def run(ctx):
     diskprop.tlc_check(ctx, "Vhdx", "VhdxDiff_small.cfg", min_states=200)
 
 
+def session(top, fresh, size_b, align, attr, depth):
+    """Recorders for the opened stream (obj 1) and for the stream objects of its ancestors (obj 2..), sharing one event list."""
+    events, recs = [], []
+    o, f = top, fresh
+    for k in range(1, depth + 1):
+        if o is None:
+            break
+        recs.append(record.Recorder(o, size_b, probe=f.readoffset, align=align, events=events, obj=k))
+        o, f = getattr(o, attr, None), getattr(f, attr, None)
+    return events, recs
+
+
+def interleaved_ops(recs, rng, size_b, nops, **kw):
+    """Short bursts of random operations on the objects of a session in random order: what an object returns must not
+    depend on what was done to the others.  The opened stream is driven with the full repertoire; an ancestor object is
+    a handle the stream above it owns (QCow2 positions its backing file with seek + read), so its cursor is not asserted:
+    every operation on it seeks to an absolute offset first."""
+    left = nops
+    while left > 0:
+        burst = min(left, rng.randrange(1, 6))
+        k = 0 if rng.random() < 0.6 else rng.randrange(len(recs))
+        record.random_ops(recs[k], rng, size_b, burst, absolute=(k > 0), **kw)
+        left -= burst
+
+
 # ---------------------------------------------------------------- VHDX: partially-present block in a later chunk (second sector-bitmap entry)
 def vhdx_late_chunk(ctx, rng, thorough):
     """Differencing disk larger than one chunk: the partially-present block lies in chunk 1 (or 2), so its sector bitmap is
@@ -492,8 +517,10 @@ def trace_vhdx_chain(tid, rng, nops, align=None):
         s = VHDX(Path(top))
         fresh = VHDX(Path(top))
         size_b = nb * bs
-        rec = record.Recorder(s, size_b, probe=fresh.readoffset, align=align)
+        events, recs = session(s, fresh, size_b, align, "parent", depth)
         for _ in range(nops):
+            rec = recs[0] if rng.random() < 0.6 else rng.choice(recs)
+            s = rec.s
             b = rng.randrange(nb)
             r = rng.random()
             if r < 0.6:
@@ -509,7 +536,7 @@ def trace_vhdx_chain(tid, rng, nops, align=None):
                 rec.seek(rng.randrange(0, size_b))
                 rec.read(rng.choice([4096, 65536]))
         geo = {"cellB": sector, "cb": spb, "stride": bs, "bases": bases, "pbase": 0}
-        return {"tid": tid, "fmt": "chain", "kind": "vhdx", "chain": layers, "sizeB": size_b, "sector": sector, "geo": geo, "events": rec.events}
+        return {"tid": tid, "fmt": "chain", "kind": "vhdx", "chain": layers, "sizeB": size_b, "sector": sector, "geo": geo, "events": events}
     finally:
         shutil.rmtree(work, ignore_errors=True)
 
@@ -565,10 +592,10 @@ def trace_qcow2_chain(tid, rng, nops, align=None):
 
     size_b = nc * cs
     s, fresh = opener(), opener()
-    rec = record.Recorder(s, size_b, probe=fresh.readoffset, align=align)
-    record.random_ops(rec, rng, size_b, nops, unit=cs // 32, big=min(3 * cs, 1 << 20))
+    events, recs = session(s, fresh, size_b, align, "backing_file", depth)
+    interleaved_ops(recs, rng, size_b, nops, unit=cs // 32, big=min(3 * cs, 1 << 20))
     geo = {"cellB": cs // 32, "cb": 1, "stride": cs // 32, "bases": bases, "pbase": 0}
-    return {"tid": tid, "fmt": "chain", "kind": "qcow2", "chain": layers, "sizeB": size_b, "sector": 512, "geo": geo, "events": rec.events}
+    return {"tid": tid, "fmt": "chain", "kind": "qcow2", "chain": layers, "sizeB": size_b, "sector": 512, "geo": geo, "events": events}
 
 
 def trace_vdi_chain(tid, rng, nops, align=None):
@@ -596,10 +623,10 @@ def trace_vdi_chain(tid, rng, nops, align=None):
 
     size_b = n * bs
     s, fresh = opener(), opener()
-    rec = record.Recorder(s, size_b, probe=fresh.readoffset, align=align)
-    record.random_ops(rec, rng, size_b, nops, unit=bs, big=min(3 * bs + 4096, 4 << 20))
+    events, recs = session(s, fresh, size_b, align, "parent", depth)
+    interleaved_ops(recs, rng, size_b, nops, unit=bs, big=min(3 * bs + 4096, 4 << 20))
     geo = {"cellB": bs, "cb": 1, "stride": bs, "bases": bases, "pbase": 0}
-    return {"tid": tid, "fmt": "chain", "kind": "vdi", "chain": layers, "sizeB": size_b, "sector": 512, "geo": geo, "events": rec.events}
+    return {"tid": tid, "fmt": "chain", "kind": "vdi", "chain": layers, "sizeB": size_b, "sector": 512, "geo": geo, "events": events}
 
 
 def direction_B(ctx, thorough):
